@@ -1100,27 +1100,20 @@ class Collocator:
                 pd.core.indexes.multi.MultiIndex
             )
             if main_coord_is_multiindex:
-                stacked_dims_data = xr.merge([
-                    xr.DataArray(
-                        output[name][dim].values,
-                        name=dim, dims=["collocation"]
-                    )
-                    for dim in output[name].get_index("collocation").names
-                ])
-
-            # Okay, actually we want to get rid of the main coordinate. It
-            # should stay as a dimension name but without own labels. I.e. we
-            # want to drop it. Because it still may a MultiIndex, we cannot
-            # drop it directly but we have to set it to something different.
-            output[name]["collocation"] = \
-                np.arange(output[name]["collocation"].size)
-
-            if main_coord_is_multiindex:
-                # Now, since we unstacked the multi-index, we can add the
-                # stacked dimensions back to the dataset:
-                output[name] = xr.merge(
-                    [output[name], stacked_dims_data],
+                # Current xarray versions do not allow to overwrite a
+                # MultiIndex coordinate. reset_index removes the MultiIndex
+                # and keeps its levels (the stacked dimensions) as normal
+                # coordinates, which we turn into data variables:
+                stacked_dims = list(
+                    output[name].get_index("collocation").names
                 )
+                output[name] = output[name].reset_index(
+                    "collocation").reset_coords(stacked_dims)
+            else:
+                # Okay, actually we want to get rid of the main coordinate.
+                # It should stay as a dimension name but without own labels.
+                output[name]["collocation"] = \
+                    np.arange(output[name]["collocation"].size)
 
             # For the flattening we might have created temporal variables,
             # also collect them to drop:
@@ -1131,7 +1124,7 @@ class Collocator:
 
             output[name] = output[name].drop_vars([
                 f"collocation", *vars_to_drop
-            ])
+            ], errors="ignore")
 
         # Merge all datasets into one:
         output = add_xarray_groups(
